@@ -83,7 +83,23 @@ class H9(SMHooks):
             if sg is not None:
                 return {'Lt': sg < 0, 'LtE': sg <= 0, 'Gt': sg > 0,
                         'GtE': sg >= 0}[k]
+            if self.region is not None:
+                # a piecewise functional at a generic point of one region:
+                # the comparison is decided at the designated numeric point
+                # of that region (strictly, so it holds on a neighbourhood,
+                # where the symbolic differentiation is valid)
+                env = witness(77)
+                env.update(self.region)
+                try:
+                    v = PA.num_eval(cond.rat, env)
+                except (Undecided, ZeroDivisionError, ValueError):
+                    v = 0.0
+                if abs(v) > 1e-6:
+                    return {'Lt': v < 0, 'LtE': v <= 0, 'Gt': v > 0,
+                            'GtE': v >= 0}[k]
         return SMHooks.on_decide(self, interp, cond, node)
+
+    region = None
 
 
 def spaces():
@@ -161,6 +177,34 @@ def builders(model):
         inst(I, 'KullbackLeibler', X('array')))
     B['SeparableSum[L2NormSquared x 2]'] = lambda I: inst(
         I, 'SeparableSum', inst(I, 'L2NormSquared', X('const')), 2)
+    # Huber: piecewise, evaluated at generic points of a region in which
+    # entries 0, 1 are beyond the threshold and entry 2 is below it (vector
+    # fields: the first point beyond, the second below)
+    def hub(I, space, region):
+        I.hooks.region = dict(region, gam=1.0)
+        return inst(I, 'Huber', space, Rat.var('gam'))
+    for w in (None, 'const', 'array'):
+        t = {None: 'unweighted', 'const': 'weight w',
+             'array': 'weights w0..w2'}[w]
+        B['Huber[%s]' % t] = lambda I, w=w: hub(
+            I, X(w), {'x0': 2.0, 'x1': -3.0, 'x2': 0.5})
+    for wt in (None, 'array'):
+        t = {None: 'pspace', 'array': 'pspace weights p0, p1'}[wt]
+        B['Huber[%s]' % t] = lambda I, wt=wt: hub(
+            I, PS(wt), {'x00': 3.0, 'x01': 0.3, 'x10': -4.0, 'x11': 0.4,
+                        'p0': 1.0, 'p1': 1.0})
+    # a summand with a known Lipschitz bound next to one without, in both
+    # orders; summands with different bounds
+    B['SeparableSum[L2NormSquared, L2Norm]'] = lambda I: inst(
+        I, 'SeparableSum', inst(I, 'L2NormSquared', X('const')),
+        inst(I, 'L2Norm', X('const')))
+    B['SeparableSum[L2Norm, L2NormSquared]'] = lambda I: inst(
+        I, 'SeparableSum', inst(I, 'L2Norm', X('const')),
+        inst(I, 'L2NormSquared', X('const')))
+    B['SeparableSum[L2NormSquared, 3 * L2NormSquared]'] = lambda I: inst(
+        I, 'SeparableSum', inst(I, 'L2NormSquared', X('const')),
+        I.binop(ast.Mult, Rat.const(3), inst(I, 'L2NormSquared',
+                                             X('const'))))
     for k in ('R',):
         B['ScalingFunctional[field]'] = lambda I: inst(
             I, 'ScalingFunctional', NField('R'), Rat.var('s'))
@@ -223,6 +267,18 @@ def builders(model):
             ast.Mult, lin(I), Rat.var('a'))
         B['expr:<., v> + L2Norm[%s]' % t] = lambda I, lin=lin, w=w: I.binop(
             ast.Add, lin(I), leaf(I, w))
+        B['FunctionalQuadraticPerturb[<., v>, linear term, constant,%s]'
+          % t] = lambda I, lin=lin, w=w: inst(
+              I, 'FunctionalQuadraticPerturb', lin(I),
+              linear_term=sym_elem(X(w), 'l'), constant=Rat.var('c'))
+        B['FunctionalQuadraticPerturb[<., v>, linear term,%s]'
+          % t] = lambda I, lin=lin, w=w: inst(
+              I, 'FunctionalQuadraticPerturb', lin(I),
+              linear_term=sym_elem(X(w), 'l'))
+        B['FunctionalQuadraticPerturb[<., v>, quadratic,%s]'
+          % t] = lambda I, lin=lin, w=w: inst(
+              I, 'FunctionalQuadraticPerturb', lin(I),
+              quadratic_coeff=Rat.var('q'))
     # a non-symmetric operator (unweighted: the weighted MatrixOperator
     # adjoint is known finding F28 of C05) and nonlinear inner operators
     def mat(name, shape):
@@ -297,6 +353,22 @@ def evaluate(model, build):
                            % (j, _s(gv), j, j, _s(p / w)))
                 break
     res['grad_bad'] = bad
+    # R3e: a declared (finite) Lipschitz bound of the gradient is refuted by
+    # a pair of numeric points at which the difference quotient of the
+    # evaluated gradient exceeds it (weighted norms of the space)
+    res['lip'] = None
+    if g is not None and not bad and not isinstance(dom, NField) and \
+            H.region is None:
+        # (for a piecewise functional the evaluated gradient is that of one
+        # region only and cannot be compared across points)
+        try:
+            L = I.getattr_value(f, 'grad_lipschitz')
+        except PyRaise:
+            L = None
+        if L is not None and is_scalar(L) and not isinstance(L, bool):
+            res['lip'] = _refute_lipschitz(to_rat(L), g, xs, ws)
+        elif isinstance(L, Opaque) and L.desc in ('np.nan', 'np.inf'):
+            res['lip'] = ('none', 'no bound declared (%s)' % L.desc)
     # derivative(x)(d)
     dbad = []
     try:
@@ -334,6 +406,56 @@ def evaluate(model, build):
             res['der_bad'] = dbad + [
                 'is_linear is True but f(0) = %s' % _s(f0)]
     return res
+
+
+def _refute_lipschitz(L, g, xs, ws):
+    import math
+    names = []
+    for xv in xs:
+        (var,) = list(xv.vars())
+        names.append(var)
+    A = [0.7, -0.4, 1.3, -1.1, 0.35, 0.9, -0.65, 1.7, -0.2, 0.55, -1.4, 0.8]
+    Bv = [-0.5, 0.9, 0.6, 0.45, -0.8, -1.2, 0.3, -0.75, 1.1, -0.95, 0.5,
+          -0.3]
+    n = len(names)
+    if n > len(A):
+        return None
+    tried = 0
+    for seed in (41, 42):
+        base = witness(seed)
+        for pos in (False, True):
+            for scale in (1.0, 1e-3, 1e3):
+                a = [scale * (abs(v) if pos else v) for v in A[:n]]
+                b = [scale * (abs(v) if pos else v) for v in Bv[:n]]
+                e1, e2 = witness(seed), witness(seed)
+                for k, nm in enumerate(names):
+                    e1[nm] = a[k]
+                    e2[nm] = b[k]
+                try:
+                    Ln = PA.num_eval(L, base)
+                    wn = [PA.num_eval(to_rat(w), base) for w in ws]
+                    g1 = [PA.num_eval_c(v, e1) for v in g]
+                    g2 = [PA.num_eval_c(v, e2) for v in g]
+                except (Undecided, ZeroDivisionError, ValueError,
+                        OverflowError, KeyError):
+                    continue
+                if not all(math.isfinite(abs(z)) for z in g1 + g2):
+                    continue
+                tried += 1
+                num = math.sqrt(sum(w * abs(p - q) ** 2
+                                    for w, p, q in zip(wn, g1, g2)))
+                den = math.sqrt(sum(w * (p - q) ** 2
+                                    for w, p, q in zip(wn, a, b)))
+                if num > Ln * den * (1 + 1e-9) + 1e-300:
+                    return ('refuted', 'declared grad_lipschitz = %s (%.6g '
+                            'at the witness) but ||grad f(x) - grad f(z)|| '
+                            '/ ||x - z|| = %.6g at x = %s, z = %s' % (
+                                _s(L), Ln, num / den,
+                                ['%g' % v for v in a],
+                                ['%g' % v for v in b]))
+    if not tried:
+        return None
+    return ('held', '%d numeric point pairs' % tried)
 
 
 def numerical_gradient(rep, model):
@@ -421,7 +543,7 @@ def _s(v):
 
 
 def run(rep, model):
-    n = 0
+    n = nl = 0
     for name, b in builders(model).items():
         n += 1
         rel, line = _where(model, name)
@@ -452,5 +574,14 @@ def run(rep, model):
             rep.holds('R6', name, 'gradient = differential / weights and '
                       'derivative(x)(d) = differential, for f(x) = %s'
                       % _s(r['fx']))
+        lip = r.get('lip')
+        if lip is not None:
+            nl += 1
+            if lip[0] == 'refuted':
+                rep.violation('R3e', name, lip[1], rel, line)
+            else:
+                rep.holds('R3e', name, 'declared Lipschitz bound not '
+                          'refuted: ' + lip[1])
     rep.floor('R6', 'evaluated functional instances', n, 90)
+    rep.floor('R3e', 'declared Lipschitz bounds examined', nl, 40)
     numerical_gradient(rep, model)
